@@ -67,7 +67,13 @@ Lin(g) ==
     /\ LET e   == Log[pend[g].at]
            r   == e.res
            run == [res |-> r]
-       IN \/ /\ r.st = "ok"
+       IN \* Close takes effect at one instant like any other call: from then on every call fails and changes nothing
+          \/ /\ e.op = "Close" /\ r.st = "ok"
+             /\ open' = FALSE
+             /\ UNCHANGED <<cat, files>>
+          \/ /\ ~open /\ e.op # "Close" /\ r.st = "err"
+             /\ UNCHANGED vars
+          \/ /\ open /\ e.op # "Close" /\ r.st = "ok"
              /\ (/\ CanOk(cat, files, e)
                  /\ HintOk(cat, files, e, HintOf(e, run, cat, files))
                  /\ ValOk(e, run, cat)
@@ -75,7 +81,7 @@ Lin(g) ==
              /\ cat' = NextCat(cat, files, e, HintOf(e, run, cat, files))
              /\ files' = NextFiles(cat, files, e)
              /\ UNCHANGED open
-          \/ /\ r.st = "err"
+          \/ /\ open /\ e.op # "Close" /\ r.st = "err"
              /\ (r.err \in Errs(cat, files, e) \/ (Conflict(r) /\ e.op \in WriteOps)) = TRUE
              /\ UNCHANGED vars
     /\ pend' = [pend EXCEPT ![g].lin = TRUE]
